@@ -15,6 +15,8 @@ import time
 
 import z3
 
+from engine import xcheck
+
 from engine.pysym import Engine, Frame, Interp, SBool, SInt, SStr, SymRaise, Unsupported, lift_c, mk, sb
 from stix2.canonicalization import Canonicalize as C
 from stix2.canonicalization import NumberToJson as N
@@ -204,7 +206,7 @@ def _num_part(tier, seed, part, nparts):
                 s.add(z3.Not(post))
                 eng.queries += 1
                 ts = time.time()
-                r = str(s.check())
+                r = xcheck.check(s)
                 eng.solver_time += time.time() - ts
                 if r == "unsat":
                     continue
@@ -394,7 +396,7 @@ def job_keyorder(tier, seed):
                     s.add(impl_lt != spec_lt)
                     eng.queries += 1
                     ts = time.time()
-                    r = str(s.check())
+                    r = xcheck.check(s)
                     eng.solver_time += time.time() - ts
                     if r == "unsat":
                         if len(samples) < 3:
